@@ -121,8 +121,9 @@ def gen(rng, tier, meta):
     return cases
 
 
-def roundtrip_oracle(case, impl):
-    """Property-level judgement of the implementation alone: values set on a fresh creator must read back."""
+def roundtrip_oracle(case, impl, readback=None):
+    """Property-level judgement of the implementation alone: values set on a fresh creator must read back.
+    readback: the implementation's own parse of what it built (fetched here when not supplied by the batched pass)."""
     t = case.split()
     if t[0] != "mc_build" or impl.startswith(("ERR", "PANIC", "CRASH")):
         return None
@@ -136,7 +137,7 @@ def roundtrip_oracle(case, impl):
         if ":" in v or v.startswith("x"):
             return None
         last[int(f)] = int(v)
-    out = core.run_lines(core.harness_bin(), ["mc_read %s %s" % (setname, impl)], 1)[0]
+    out = readback if readback is not None else core.run_lines(core.harness_bin(), ["mc_read %s %s" % (setname, impl)], 1)[0]
     try:
         vals = out.split(" | ")[1].split(" ; ")[0].split()
     except Exception:
@@ -155,6 +156,16 @@ def roundtrip_oracle(case, impl):
             return {"kind": "field value set through the creator does not read back from the parsed command",
                     "creator": c, "field": f, "set": v, "read": int(vals[acc]), "spec_output": str(want)}
     return None
+
+
+def readback_lines(cases, outs):
+    """the mc_read line for each built command (None where the case is not a round-trip candidate)"""
+    ls = []
+    for c, o in zip(cases, outs):
+        t = c.split()
+        ok = t[0] == "mc_build" and not o.startswith(("ERR", "PANIC", "CRASH")) and int(t[1]) in CREATORS
+        ls.append("mc_read %s %s" % (CREATORS[int(t[1])][0], o) if ok else None)
+    return ls
 
 
 def judge(case, impl, model):
@@ -205,8 +216,14 @@ def run(rep, tier, rng):
     known = core.load_known(ID)
     bad, known_hit = 0, False
     chk = 0
-    for c, o in zip(sample[::7] + [KNOWN_WITNESS], outs[::7] + core.run_lines(core.harness_bin(), [KNOWN_WITNESS], 1)):
-        v = roundtrip_oracle(c, o)
+    sample = sample + [KNOWN_WITNESS]
+    outs = outs + core.run_lines(core.harness_bin(), [KNOWN_WITNESS], 1)
+    rb = readback_lines(sample, outs)          # every built command is parsed back by the implementation itself, in one batch
+    rbo = iter(core.run_lines(core.harness_bin(), [l for l in rb if l is not None]))
+    for c, o, l in zip(sample, outs, rb):
+        if l is None:
+            continue
+        v = roundtrip_oracle(c, o, next(rbo))
         chk += 1
         if v is None:
             continue
